@@ -15,6 +15,7 @@ def run(rep):
     w = rep.world('dev')
     k1(rep, w)
     k2(rep, w)
+    k3(rep, w)
 
 
 def lookups(w, paths):
@@ -133,3 +134,60 @@ def k2(rep, w):
     # `super` is captured at class definition: a hidden local named "super" is declared under has_superclass
     names = [k.get('s') for b in cd.blocks for s in b['s'] for k in [op_const((s.get('r', {}) or {}).get('o', {}) or {})] if k and 's' in k]
     r.check(any('super' in (x or '') for x in names), 'class_declaration binds the hidden `super` local at definition time', 'the superclass is no longer captured in a hidden local', cd.loc())
+
+
+def k3(rep, w):
+    """`super` is lexical: both spellings (super.m(..) and super.m) use the superclass captured in the hidden `super` variable at
+    class definition -- the compiler loads that variable before either opcode, and both VM handlers take the class from the stack
+    rather than from the receiver's dynamic class"""
+    r = rep.rule('K3', 'super.m(..) and super.m both resolve through the hidden `super` variable of the defining class', floor=4)
+    sp = w.require_fn(P + 'super_', 'C07')
+    # blocks that load the hidden variable: named_variable(Token::from_string("super"), ..)
+    loads = set()
+    org = origins(sp)
+    for bi, t in sp.calls():
+        if callee_name(t) != P + 'named_variable':
+            continue
+        pl = op_place(t['args'][1])
+        for q in org.get(pl['l'], ()) if pl else ():
+            if q[0][0] == 'call' and q[0][2].endswith('Token::from_string'):
+                ft = sp.blocks[q[0][1]]['t']
+                k = op_const(ft['args'][0])
+                if k is None:
+                    ap_ = op_place(ft['args'][0])
+                    for q2 in org.get(ap_['l'], ()) if ap_ else ():
+                        if q2[0][0] == 'const' and q2[0][1] == '"super"':
+                            k = {'s': '"super"'}
+                if k is not None and k.get('s') == '"super"':
+                    loads.add(bi)
+    for opn in ('SuperInvoke', 'GetSuper'):
+        ems = [bi for (bi, k, o, d) in emit.emissions(w, sp) if o == opn]
+        ok = bool(ems) and bool(loads)
+        for e in ems:
+            # every path from entry to the emission passes a load of `super`
+            seen = set()
+            stack = [0]
+            while stack:
+                b = stack.pop()
+                if b in seen or b in loads:
+                    continue
+                seen.add(b)
+                if b == e:
+                    ok = False
+                    break
+                stack.extend(sp.succs()[b])
+        r.check(ok, 'compiler: %s is preceded by a load of the hidden `super` variable' % opn,
+                'the compiler emits %s without pushing the superclass captured at class definition: the VM has to guess it from the receiver, '
+                'whose dynamic class may be a subclass of the defining class' % opn, sp.loc())
+    for nm, callee in (('super_invoke_impl', VM + 'invoke_from_class'), ('get_super_impl', VM + 'bind_method')):
+        f = w.require_fn(VM + nm, 'C07')
+        forg = origins(f)
+        ok = False
+        for bi, t in f.calls():
+            if callee_name(t) == callee:
+                pl = op_place(t['args'][1])
+                roots = {q[0] for q in forg.get(pl['l'], ())} if pl else set()
+                ok = bool(roots) and all(x[0] == 'call' and x[2] == VM + 'pop' for x in roots)
+        r.check(ok, '%s takes the class from the stack (the captured superclass)' % nm,
+                '%s derives the class to search from something other than the popped `super` value (e.g. the receiver\'s dynamic class): '
+                'an inherited method that uses super then starts its search at the wrong class' % nm, f.loc())
